@@ -1,7 +1,7 @@
 """Per-property metadata used by the driver and the evidence writer."""
 
-CLAIMED = ['C01', 'C02', 'C03', 'C04', 'C05', 'C06', 'C07', 'C08', 'C09', 'C10', 'C11', 'C12', 'C13']
-PENDING = ['C14']
+CLAIMED = ['C01', 'C02', 'C03', 'C04', 'C05', 'C06', 'C07', 'C08', 'C09', 'C10', 'C11', 'C12', 'C13', 'C14']
+PENDING = []
 
 NOT_APPLICABLE = {
     'C15': 'quantifies over thread schedules: Verus verifies sequential code (its concurrency support needs different code), Kani has no thread support; Send/Sync is decided by rustc, not by a contract',
@@ -13,6 +13,9 @@ for _p in PENDING:
 
 # conjuncts of each property that no discharged obligation covers (reported in evidence)
 NOT_DECIDED = {
+    'C14': ['the ten filter_map closures of Node::iter_*identifiers* (impl Iterator + closures: outside Verus): classification into write / function / read sub-sequences',
+            'OperatorIterMut (yields &mut into a tree it keeps iterating: beyond the installed Verus) and therefore all *_mut variants and the renaming corollary',
+            'Node::iter() returns `impl Iterator`, so the NodeIter contract does not travel through it'],
     'C03': ['value of i64 `%` (Ok result of checked_rem is the truncated remainder): no installed SAT/SMT back end proves any fact about it within 15 min; rests on std::i64::checked_rem',
             'value of i64 `/` is proved only in the thorough tier (harness int_checked_div_value, 150-350 s); the quick tier proves the Ok/Err partition and the error payload',
             'IEEE-754 arithmetic itself (f_add .. f_pow are uninterpreted): routing, promotion and operand order are proved, the hardware operation is trusted',
